@@ -150,7 +150,7 @@ def run(F, R):
             hs = [x for x in walk(t) if x[0] == "call" and x[1].endswith("GUID::new")]
             ok = len(hs) == 1 and hs[0][3] == base[3]
             R.check("C10-R2", "session:" + _ctxkey(n.ctx), ok, "session id <- the check's GUID", "this report uses a different session id: %s" % fmt_t(t)[:100], n.loc())
-    exch = [n for n in S.nodes if n.idx in S.live and n.term["k"] == "call" and n.term.get("callee_id") in W.by_id and any(t.get("name") == "verify_response" for _, t in (W.bv(n.term["callee_id"] + "::{closure#0}").calls() if W.bv(n.term["callee_id"] + "::{closure#0}") else []))]
+    exch = [n for n in S.nodes if n.idx in S.live and n.term["k"] == "call" and n.term.get("callee_id") in W.by_id and W.bv(n.term["callee_id"] + "::{closure#0}") is not None and lib.calls_verify_response(W.bv(n.term["callee_id"] + "::{closure#0}"))]
     R.floor("C10-R2", "exchange call sites", len(exch), 3)
     transformers = ("add_update_check", "add_ping", "add_event", "request_id", "session_id")
     for n in exch:
